@@ -10,7 +10,7 @@ LEVEL = {
  "C02": ("proof", "Theorem C02_fast_lane_equals_general_path: for every fast-eligible option set, every bounds list the parser can build and every input, the model of the fast lane and the model of the general path give the same stdout, status and completed records (early stop, fake end-of-line start, -s, trim, fallbacks included). Tied to the code by running both library entry points and the binary against the models, plus the pair oracle on the implementation."),
  "C03": ("proof", "Theorem C03_fixed_memory_equals_line_mode (Coq, axiom-free): for every option set -M accepts, every bounds list built from parsed bounds, and every input on whose records each closed range is wholly present or wholly absent, the model of -M gives exactly the stdout, status and completed records of the model of the same invocation without -M (empty records, empty first/last fields, final record without EOL included); the static part of the domain is proved to follow from -M's own eligibility test. Tied to the code by correspondence of both paths and by the pair oracle (-M vs no -M) on the implementation, incl. inputs straddling the 64 KiB buffer."),
  "C04": ("proof", "Theorem C04_segmentation_independence: for every -M option set, every input and every two segmentations into non-empty reads, the model writes the same bytes and ends with the same status; the side condition holds for every parsed bounds list. Tied to the code through a BufRead double serving prescribed segmentations (all segmentations of short inputs) and through a read(2) shim on the real binary."),
- "C05": ("proof", "Proved: both line algorithms index exactly the same list of lines for every non-empty input (one trailing EOL is not a line), and the buffered algorithm's fields are those lines byte for byte. The walk over the bounds is the executable model, compared with the code on every run, plus the forward-vs-buffered pair oracle."),
+ "C05": ("proof", "Theorems (Coq, axiom-free): records eol I = split on EOL minus the empty piece after a final EOL; the buffered algorithm indexes exactly those lines for every non-empty input; the forward reader's walk prints exactly the selected lines for every ascending bounds list and fails exactly on an unresolvable bound without fallback (C05_forward); on every input both algorithms print the same (C05_buffered_same). Tied to the code by correspondence of both algorithms with the model and by the forward-vs-buffered pair oracle on the implementation, incl. inputs larger than the 64 KiB read buffer."),
  "C06": ("proof", "Theorem C06_byte_mode_exact: for every input, every resolvable bounds list and any format text the model prints exactly the bytes at the selected positions in request order and nothing else; empty input gives empty output."),
  "C07": ("proof", "Proved: on every valid UTF-8 record the fields character mode indexes are exactly its scalar encodings, whole and in order. Assumed and exercised, not proved: the regex crate's \\b|\\B matches at exactly the scalar boundaries."),
  "C08": ("proof", "Theorem C08_element_roundtrip: every element the JSON writer emits is read back by a strict reader as exactly the part's text (all escapes). Framing and one-element-per-part are the executable model, compared with the code; every output line is also parsed by an independent strict JSON reader."),
